@@ -207,6 +207,16 @@ func (c *ConstantStruct) Link(scope Scope, t TypeSpec) (ConstantValue, error) {
 				}
 				continue
 			}
+			if field.linkingDefault {
+				// The default being linked right now contains a value of
+				// its own struct that leaves this very field out, so the
+				// default would have to contain itself.
+				return nil, constantValueCastError{
+					Value:  c,
+					Type:   t,
+					Reason: fmt.Errorf("the default value of field %q contains itself", field.Name),
+				}
+			}
 			f = field.Default
 			c.Fields[field.Name] = f
 		}
